@@ -105,10 +105,14 @@ theorem C08_rep_needs_request (w : World) (sid : Nat) (s : Socket) (m : Msg)
   simp [repSendStart, hs, hc]
 
 /-- REP: the reply is written to exactly the connection the request came from — every other
-pipe of the world (every other client's wire) is left untouched. -/
+pipe of the world (every other client's wire) is left untouched (`j` is any pipe that is neither
+the requester's write half nor the read half the socket holds for the same identity, which is
+dropped when the write fails and the peer is forgotten). -/
 theorem C08_rep_routes (w : World) (sid : Nat) (s : Socket) (m : Msg) (k : Ident) (wr : Wr)
     (hs : getSock w sid = some s) (hc : s.current = some k) (hp : ilookup s.peers k = some wr)
-    (j : Nat) (hj : j ≠ wr.pipe) :
+    (j : Nat) (hj : j ≠ wr.pipe)
+    (hjr : ∀ rd, ilookup s.fqStreams k = some rd → j ≠ rd.pipe)
+    (hjq : ∀ rd, ilookup s.reqRd k = some rd → j ≠ rd.pipe) :
     getPipe (repSendStart w sid m).1.pipes j = getPipe w.pipes j := by
   unfold repSendStart
   simp only [hs, hc, hp, Option.isSome_some, ↓reduceIte]
@@ -122,6 +126,20 @@ theorem C08_rep_routes (w : World) (sid : Nat) (s : Socket) (m : Msg) (k : Ident
   simp only at hframe ⊢
   have hps : (setSock w sid { s with current := none, envelope := none }).pipes = w.pipes := rfl
   rw [hps] at hframe
-  cases r <;> simp [setSock, hframe]
+  have hpipe : wr'.pipe = wr.pipe := by
+    have := wrSendPoll_pipe (setSock w sid { s with current := none, envelope := none }).pipes wr
+      (.feeding (encodeMsg (repReply (s.envelope.getD []) m)))
+    rw [hq] at this; exact this
+  cases r with
+  | pending => simp [setSock, hframe]
+  | done => simp [setSock, hframe]
+  | error =>
+    simp only [setSock]
+    refine Eq.trans (peerDisconnected_frame _ _ _ _ ?_ ?_ ?_) hframe
+    · intro wr2 h2
+      simp only [ilookup_iinsert_same] at h2
+      injection h2 with h2; subst h2; rw [hpipe]; exact hj
+    · exact hjr
+    · exact hjq
 
 end Zmq.C08
